@@ -370,19 +370,68 @@ def k8_handler(facts, rep, clause, fn, extra_complete=None, min_release=True, la
             if n.get('k') == 'call':
                 u = n.get('fn')
                 g = facts.fns.get(u) if u else None
-                if g is not None and not n.get('virt') and g.u != fn.u:
-                    # a helper that receives the operation and completes it on all of its paths
-                    if summ.must(g, 'status', status_pred):
+                if g is not None and g.u != fn.u:
+                    # a helper that receives the operation and completes it on all of its paths; for a virtual helper every
+                    # overrider visible in the analysed units must do so as well (sibling agreement)
+                    targets = [g]
+                    if n.get('virt'):
+                        targets += [facts.fns[u2] for u2 in facts.overriders(u) if u2 in facts.fns]
+                    if all(summ.must(t, 'status', status_pred) for t in targets):
                         return True
         return False
     nbad = 0
+    # switch over the operation type without a default: the implicit fall-through edge is feasible only for an enumerator that has
+    # no case; that is checked separately (every enumerator used to build an operation has a case)
+    implicit_default = set()
+    case_names = set()
+    has_switch = False
+    for b, blk in fn.blocks.items():
+        t = blk.get('term')
+        if t and t.get('k') == 'SwitchStmt':
+            has_switch = True
+            for si, sb in enumerate(blk['succ']):
+                if sb is None:
+                    continue
+                lab = fn.blocks[sb].get('label')
+                if lab and 'case' in lab:
+                    if lab.get('n'):
+                        case_names.add(lab['n'])
+                elif lab and 'default' in lab:
+                    pass
+                else:
+                    implicit_default.add((b, si))
+    # case labels that share a block (fall-through `case a: case b:`) only label it once in the CFG; collect nested labels too
+    if has_switch:
+        used = set()
+        cls = fn.cls or ''
+        for g in facts.fns.values():
+            if not (g.cls == cls or (g.cls or '').startswith(cls + '::') or g.d.get('lparent') and False):
+                continue
+            pm = g.parent_map()
+            for i, nd in enumerate(g.nodes):
+                if nd and nd.get('k') == 'enum' and nd.get('q', '').startswith(cls + '::'):
+                    par = pm.get(i)
+                    for _ in range(3):
+                        if par is not None and g.nodes[par].get('k') in ('cast', 'rd'):
+                            par = pm.get(par)
+                    pn = g.nodes[par] if par is not None else {}
+                    if pn.get('k') == 'ctor' and 'operation' in (pn.get('cls') or ''):
+                        used.add(nd['n'])
+        missing = sorted(used - case_names) if case_names else []
+        rep.ob(clause, 'K8', fn, '%severy operation kind that is ever submitted has a case in the handler' % ((label + ': ') if label else ''),
+               not missing or not implicit_default,
+               'operation kind(s) %s are submitted but the handler switch has no case for them: the submitter waits forever' % missing,
+               key_extra='cases')
+
+    def stop_edge(b, si):
+        return (b, si) in implicit_default
     starts = [(p, 'operation taken at line %s' % fn.n(s).get('ln'), fn.n(s).get('ln')) for p, s, _, _ in its]
     for b, blk in fn.blocks.items():
         lab = blk.get('label')
         if lab and 'catch' in lab:
             starts.append(((b, -1), 'exception handler at line %s' % fn.nodes[lab['catch']].get('ln'), fn.nodes[lab['catch']].get('ln')))
     for start, what, ln in starts:
-        reached, ex, par = fn.walk(start, stop_elem=completes)
+        reached, ex, par = fn.walk(start, stop_elem=completes, stop_edge=stop_edge)
         hit_next = [q for q in reached if q in adv_pos and q != start and not completes(q, fn.elems(q[0])[q[1]])]
         again = (start in reached) if start[1] >= 0 else False
         ok = not ex and not hit_next and not again
